@@ -5,7 +5,8 @@ ID = "C19"
 SHRINK = False
 RULE = ("queued receivers: exhaustive capacity 0..5 x fill 0..cap x closed x limit 0..7 (exact against model and take/drop specification); timed helpers: one scenario per "
         "(capacity, fill, closed, timeout/context kind, peer behaviour) with 1-3 ms timers on the real code, the outcome must be in the outcome set the Lean scenario system allows and "
-        "satisfy conservation; deadlocking parameter combinations are skipped; non-trivial = fill >= 1 or a peer")
+        "satisfy conservation; concurrent queued receivers: 2-4 goroutines call RecvQueued at once on a channel of up to 2000 queued values (open or closed, no sender) — every value goes to "
+        "exactly one of them in FIFO order, nothing is invented, a caller stops short of its limit only when nothing is left; deadlocking parameter combinations are skipped; non-trivial = fill >= 1 or a peer")
 ASSUMPTIONS = ["channels, select, timers and contexts by contract", "wall-clock: timers are only ever short (drive the timeout branch) or absent (drive the blocking branch); when both are ready either outcome is accepted"]
 
 
@@ -45,5 +46,11 @@ def explore(core, rng, tier, seed, search=False):
                             if ctx == 0 and fill == 0 and not closed and peer == 0:
                                 continue
                             sc.append("recvcontext %d %d %d %d %d" % (cap, fill, closed, ctx, peer))
+    scripts.append(sc)
+    # concurrent queued receivers (no sender): conservation under real parallelism
+    sc = []
+    for _ in range(40 if tier == "quick" else 1000):
+        fill = rng.choice([0, 5, 64, 2000, 5000, 5000])
+        sc.append("recvqueuedconc %d %d %d %d %d" % (fill + rng.randrange(3), fill, rng.choice([0, 1, 1]), rng.choice([2, 3, 4]), rng.choice([fill + 1, fill + 1, fill + 1, max(1, fill // 2), 3])))
     scripts.append(sc)
     return scriptprop.explore(core, ID, scripts, nontrivial=lambda s: True, exhaustive=True)
